@@ -68,9 +68,21 @@ func (d *dir) Seek(offset int64, whence int) (int64, error) {
 	if d.closed {
 		return 0, d.closedErr("seek")
 	}
-	if offset != 0 || whence != io.SeekStart {
+	// the position of a directory handle is its listing cursor; a directory has no bytes, so its end is 0
+	newOffset := int64(d.offset)
+	switch whence {
+	case io.SeekStart:
+		newOffset = offset
+	case io.SeekCurrent:
+		newOffset += offset
+	case io.SeekEnd:
+		newOffset = offset
+	default:
 		return 0, &hackpadfs.PathError{Op: "seek", Path: d.name, Err: hackpadfs.ErrInvalid}
 	}
-	d.offset = 0
-	return 0, nil
+	if newOffset < 0 {
+		return 0, &hackpadfs.PathError{Op: "seek", Path: d.name, Err: hackpadfs.ErrInvalid}
+	}
+	d.offset = int(newOffset)
+	return newOffset, nil
 }
